@@ -15,14 +15,15 @@ def civilFromDays (z0 : Int) : Int × Nat × Nat :=
   let m := if mp < 10 then mp + 3 else mp - 9             -- [1, 12]
   (if m ≤ 2 then y + 1 else y, m, d)
 
-def pad (w : Nat) (n : Nat) : Bytes :=
-  let s := (toString n).toUTF8.toList
-  List.replicate (w - s.length) 48 ++ s
+/-- zero-padded decimal digits (kernel-computable: no `toString`) -/
+def digit (n : Nat) : UInt8 := UInt8.ofNat (48 + n % 10)
+def pad2 (n : Nat) : Bytes := [digit (n / 10), digit n]
+def pad4 (n : Nat) : Bytes := [digit (n / 1000), digit (n / 100), digit (n / 10), digit n]
 
 /-- `time.Unix(sec, 0).UTC().Format("2006-01-02")` for years 0..9999 -/
 def formatDate (unixSec : Int) : Bytes :=
   let (y, m, d) := civilFromDays (unixSec / 86400)
-  pad 4 y.toNat ++ [45] ++ pad 2 m ++ [45] ++ pad 2 d
+  pad4 y.toNat ++ [45] ++ pad2 m ++ [45] ++ pad2 d
 
 /-- `FormatFromDate`: date of (from − 30 min) in UTC; `fromNs` is the Unix nanosecond -/
 def formatFromDate (fromNs : Int) : Bytes := formatDate (fromNs / 1000000000 - 1800)
